@@ -18,7 +18,8 @@ RULE = ("pairs (a, b) valid in both roles (same span from 0 for segment/hierarch
         "windows / frame sizes drawn; metric(a, b) is compared with metric(b, a): precision <-> recall, over <-> under, ref-to-est <-> est-to-ref, "
         "symmetric scores equal; non-trivial = |a| != |b| and precision != recall (otherwise a wrong denominator is invisible); distinct by SHA-1")
 ASSUMPTIONS = ["equality to 1e-12: both calls perform the same floating-point operations, at most in a different summation order",
-               "only the functions the statement lists as symmetric are asserted (e.g. transcription with offsets is not: its tolerance depends on the reference duration)"]
+               "only the functions the statement lists as symmetric are asserted (e.g. transcription with offsets is not: its tolerance depends on the reference duration)",
+               "with beta != 1 the F-measure of (a, b) is compared with the F-measure of (b, a) at 1/beta: F_beta(P, R) = F_(1/beta)(R, P) follows from the documented formula"]
 TOL = 1e-12
 
 
@@ -60,25 +61,30 @@ def pred_events(case, ctx):
 def pred_segment(case, ctx):
     a, al, b, bl, fs = _a(case["ref_iv"]), case["ref_lab"], _a(case["est_iv"]), case["est_lab"], case["frame_size"]
     w = [0.5, 3.0, 0.25][len(al) % 3]
+    # F_beta(P, R) with the roles exchanged is F_(1/beta)(R, P): beta goes in on one side, 1/beta on the other
+    be = case["beta"]
+    kb1, kb2 = ({}, {}) if be == 1.0 else ({"beta": be}, {"beta": 1.0 / be})
+    if kb1:
+        ctx.event("beta!=1")
     nt = False
     for trim in (False, True):
-        nt |= _swap3("segment.detection(trim=%s)" % trim, ctx.call(segment.detection, a, b, window=w, trim=trim), ctx.call(segment.detection, b, a, window=w, trim=trim), case)
+        nt |= _swap3("segment.detection(trim=%s)" % trim, ctx.call(segment.detection, a, b, window=w, trim=trim, **kb1), ctx.call(segment.detection, b, a, window=w, trim=trim, **kb2), case)
         d1, d2 = ctx.call(segment.deviation, a, b, trim=trim), ctx.call(segment.deviation, b, a, trim=trim)
         _eq("deviation ref-to-est(a,b) = est-to-ref(b,a)", d1[0], d2[1], case)
         _eq("deviation est-to-ref(a,b) = ref-to-est(b,a)", d1[1], d2[0], case)
     T = case["ref_iv"][-1][1]
     if int(np.floor(T / fs)) < 2:
         return False
-    nt |= _swap3("segment.pairwise", ctx.call(segment.pairwise, a, al, b, bl, frame_size=fs), ctx.call(segment.pairwise, b, bl, a, al, frame_size=fs), case)
+    nt |= _swap3("segment.pairwise", ctx.call(segment.pairwise, a, al, b, bl, frame_size=fs, **kb1), ctx.call(segment.pairwise, b, bl, a, al, frame_size=fs, **kb2), case)
     _eq("rand_index", ctx.call(segment.rand_index, a, al, b, bl, frame_size=fs), ctx.call(segment.rand_index, b, bl, a, al, frame_size=fs), case)
     _eq("ari", ctx.call(segment.ari, a, al, b, bl, frame_size=fs), ctx.call(segment.ari, b, bl, a, al, frame_size=fs), case)
     m1, m2 = ctx.call(segment.mutual_information, a, al, b, bl, frame_size=fs), ctx.call(segment.mutual_information, b, bl, a, al, frame_size=fs)
     for nm, x, y in zip(("MI", "AMI", "NMI"), m1, m2):
         _eq(nm, x, y, case)
     for marg in (False, True):
-        nt |= _swap3("nce(marginal=%s) over<->under" % marg, ctx.call(segment.nce, a, al, b, bl, frame_size=fs, marginal=marg),
-                     ctx.call(segment.nce, b, bl, a, al, frame_size=fs, marginal=marg), case)
-    nt |= _swap3("vmeasure", ctx.call(segment.vmeasure, a, al, b, bl, frame_size=fs), ctx.call(segment.vmeasure, b, bl, a, al, frame_size=fs), case)
+        nt |= _swap3("nce(marginal=%s) over<->under" % marg, ctx.call(segment.nce, a, al, b, bl, frame_size=fs, marginal=marg, **kb1),
+                     ctx.call(segment.nce, b, bl, a, al, frame_size=fs, marginal=marg, **kb2), case)
+    nt |= _swap3("vmeasure", ctx.call(segment.vmeasure, a, al, b, bl, frame_size=fs, **kb1), ctx.call(segment.vmeasure, b, bl, a, al, frame_size=fs, **kb2), case)
     _eq("chord.overseg(a,b) = chord.underseg(b,a)", ctx.call(chord.overseg, a, b), ctx.call(chord.underseg, b, a), case)
     _eq("chord.underseg(a,b) = chord.overseg(b,a)", ctx.call(chord.underseg, a, b), ctx.call(chord.overseg, b, a), case)
     _eq("chord.seg", ctx.call(chord.seg, a, b), ctx.call(chord.seg, b, a), case)
@@ -100,13 +106,13 @@ def boundary_span_case(draw):
     t0b = draw(st.sampled_from([0.0, 0.5, 1.0, 3.0]))
     Tb = t0b + draw(st.integers(2, 40)) / 2
     b = draw(gs.partition(Tb, q=8, t0=t0b))
-    return {"a": a, "b": b, "window": draw(st.sampled_from([0.5, 3.0, 0.25, 1.0])), "trim": draw(st.booleans())}
+    return {"a": a, "b": b, "window": draw(st.sampled_from([0.5, 3.0, 0.25, 1.0])), "trim": draw(st.booleans()), "beta": draw(st.sampled_from([1.0, 1.0, 0.5, 2.0]))}
 
 
 def pred_boundary_span(case, ctx):
     a, b, w, trim = _a(case["a"]).reshape(-1, 2), _a(case["b"]).reshape(-1, 2), case["window"], case["trim"]
-    nt = _swap3("segment.detection(trim=%s, different spans)" % trim, ctx.call(segment.detection, a, b, window=w, trim=trim),
-                ctx.call(segment.detection, b, a, window=w, trim=trim), case)
+    nt = _swap3("segment.detection(trim=%s, different spans)" % trim, ctx.call(segment.detection, a, b, window=w, trim=trim, beta=case["beta"]),
+                ctx.call(segment.detection, b, a, window=w, trim=trim, beta=1.0 / case["beta"]), case)
     d1, d2 = ctx.call(segment.deviation, a, b, trim=trim), ctx.call(segment.deviation, b, a, trim=trim)
     _eq("deviation ref-to-est(a,b) = est-to-ref(b,a)", d1[0], d2[1], case)
     _eq("deviation est-to-ref(a,b) = ref-to-est(b,a)", d1[1], d2[0], case)
@@ -138,11 +144,13 @@ def pred_transcription(case, ctx):
     ai, ap, _ = _arrs(case["ref"])
     bi, bp, _ = _arrs(case["est"])
     kw = dict(onset_tolerance=case["onset_tolerance"], strict=case["strict"])
-    nt = _swap3("onset_precision_recall_f1", ctx.call(transcription.onset_precision_recall_f1, ai, bi, **kw),
-                ctx.call(transcription.onset_precision_recall_f1, bi, ai, **kw), case)
-    k2 = dict(kw, pitch_tolerance=case["pitch_tolerance"], offset_ratio=None)
-    p1 = ctx.call(transcription.precision_recall_f1_overlap, ai, ap, bi, bp, **k2)
-    p2 = ctx.call(transcription.precision_recall_f1_overlap, bi, bp, ai, ap, **k2)
+    be = case["beta"]
+    nt = _swap3("onset_precision_recall_f1", ctx.call(transcription.onset_precision_recall_f1, ai, bi, beta=be, **kw),
+                ctx.call(transcription.onset_precision_recall_f1, bi, ai, beta=1.0 / be, **kw), case)
+    # offset_min_tolerance is passed although offsets are switched off: it must not matter
+    k2 = dict(kw, pitch_tolerance=case["pitch_tolerance"], offset_ratio=None, offset_min_tolerance=case["offset_min_tolerance"])
+    p1 = ctx.call(transcription.precision_recall_f1_overlap, ai, ap, bi, bp, beta=be, **k2)
+    p2 = ctx.call(transcription.precision_recall_f1_overlap, bi, bp, ai, ap, beta=1.0 / be, **k2)
     nt |= _swap3("precision_recall_f1_overlap(offset_ratio=None)", p1[:3], p2[:3], case)
     n1 = len(ctx.call(transcription.match_notes, ai, ap, bi, bp, **k2))
     n2 = len(ctx.call(transcription.match_notes, bi, bp, ai, ap, **k2))
@@ -166,7 +174,7 @@ def hier_case(draw):
     ri, rl = draw(gs.hierarchy(T))
     ei, el = draw(gs.hierarchy(T))
     return {"a": {"iv": ri, "lab": rl}, "b": {"iv": ei, "lab": el}, "frame_size": draw(st.sampled_from([0.25, 0.5, 1.0])),
-            "window": draw(st.sampled_from([None, 1.0, 2.0, 15.0])), "transitive": draw(st.booleans())}
+            "window": draw(st.sampled_from([None, 1.0, 2.0, 15.0])), "transitive": draw(st.booleans()), "beta": draw(st.sampled_from([1.0, 1.0, 0.5, 2.0]))}
 
 
 def pred_hierarchy(case, ctx):
@@ -175,10 +183,11 @@ def pred_hierarchy(case, ctx):
     fs, w, tr = case["frame_size"], case["window"], case["transitive"]
     if w is not None and w < fs:
         w = fs
-    nt = _swap3("tmeasure", ctx.call(hierarchy.tmeasure, a, b, transitive=tr, window=w, frame_size=fs),
-                ctx.call(hierarchy.tmeasure, b, a, transitive=tr, window=w, frame_size=fs), case)
-    nt |= _swap3("lmeasure", ctx.call(hierarchy.lmeasure, a, case["a"]["lab"], b, case["b"]["lab"], frame_size=fs),
-                 ctx.call(hierarchy.lmeasure, b, case["b"]["lab"], a, case["a"]["lab"], frame_size=fs), case)
+    be = case["beta"]
+    nt = _swap3("tmeasure", ctx.call(hierarchy.tmeasure, a, b, transitive=tr, window=w, frame_size=fs, beta=be),
+                ctx.call(hierarchy.tmeasure, b, a, transitive=tr, window=w, frame_size=fs, beta=1.0 / be), case)
+    nt |= _swap3("lmeasure", ctx.call(hierarchy.lmeasure, a, case["a"]["lab"], b, case["b"]["lab"], frame_size=fs, beta=be),
+                 ctx.call(hierarchy.lmeasure, b, case["b"]["lab"], a, case["a"]["lab"], frame_size=fs, beta=1.0 / be), case)
     return len(a) != len(b) and nt
 
 
